@@ -360,6 +360,9 @@ theorem Str_cstep {s t : CState} (hs : Str s) (h : cstep s = some t) : Str t := 
         have f := clearF_frame s
         apply Str_idle hs hfrom <;> simp [finishOp, htk, f.writers, f.writable, f.wg]
         exact f.tok
+      | reject =>
+        simp only [Option.some.injEq] at h; subst h
+        apply Str_idle hs hfrom <;> simp [finishOp, htk]
   · -- pushSend
     cases hch : s.m.chunk with
     | none => simp [hch] at h
@@ -593,6 +596,7 @@ theorem Ctl_cstep {s t : CState} (hc : Ctl s) (h : cstep s = some t) : Ctl t := 
                   simp only [hp, Option.some.injEq] at h; subst h; exact Ctl_trivial (Or.inl rfl)
       | pull => simp only [Option.some.injEq] at h; subst h; exact Ctl_trivial (Or.inl rfl)
       | clear => simp only [Option.some.injEq] at h; subst h; exact Ctl_trivial (Or.inl rfl)
+      | reject => simp only [Option.some.injEq] at h; subst h; exact Ctl_trivial (Or.inl rfl)
   · -- pushSend
     obtain ⟨e, rest, hprog⟩ := hc.pushProg (Or.inl hpc)
     cases hch : s.m.chunk with
@@ -752,6 +756,7 @@ theorem cstep_idle_isSome {s : CState} (hpc : s.pc = .idle) (hp : s.prog ≠ [])
             · rfl
     | pull => rfl
     | clear => rfl
+    | reject => rfl
 
 /-- a live spawned writer that is not waiting for a run and not blocked on `pool` can move -/
 theorem writer_enabled {s : CState} {k : Nat} {w : Writer} (hk : s.writers[k]? = some w)
